@@ -190,35 +190,7 @@ def check(run):
                 if "Blockstore::" in c.callee and any(a[0] == "variant" and a[1][1] == frozenset([var]) for a in G.guard_atoms(x, c.bb, prog)):
                     a1 = x.operand_term(c.args[1])
                     o.check(K.mentions_field(a1, "req_type", "RepairRequest"), "try_build_response|%s|%s|ids" % (var, c.callee.rsplit("::", 1)[-1]), "%s is asked for the requested block id" % c.callee.rsplit("::", 1)[-1], c.span)
-    # the Merkle tree's create_proof asserts index < leaves: the slice index handed to create_double_merkle_proof must have been
-    # established as existing by a successful get_slice_root for the same (block, slice) before (backs the panic review entry)
-    for x in tb:
-        for c in x.calls():
-            if not c.callee.endswith("Blockstore::create_double_merkle_proof"):
-                continue
-            bid, idx = K.peel(x.operand_term(c.args[1])), K.peel(x.operand_term(c.args[2]))
-
-            def strip(t):
-                # drop the trailing block id of call terms so that terms are compared structurally
-                if isinstance(t, tuple) and t and t[0] == "call":
-                    return ("call", t[1], tuple(strip(a) for a in t[2]))
-                if isinstance(t, tuple):
-                    return tuple(strip(a) for a in t)
-                return t
-            ok = False
-            for a in G.guard_atoms(x, c.bb, prog):
-                ts = [t for t in mir.walk(a[1][0]) if isinstance(t, tuple) and t and t[0] == "call" and t[1].endswith("Blockstore::get_slice_root")]
-                positive = (a[0] == "is_some" and a[2] is True) or (a[0] == "variant" and a[1][1] == frozenset(["Continue"])) or (a[0] == "variant" and a[1][1] == frozenset(["Some"]))
-                for t in ts:
-                    if positive and strip(K.peel(t[2][1])) == strip(bid) and strip(K.peel(t[2][2])) == strip(idx):
-                        ok = True
-            o.check(ok, "try_build_response|create_double_merkle_proof|index-established", "create_double_merkle_proof(block, i) runs only after get_slice_root(block, i) answered for the same block and index "
-                    "(out-of-range index => Nack, not the assert in MerkleTree::create_proof)", c.span, {"guards": K.show_atoms(prog, x, c.bb)[-4:]})
-    callers = sorted(set(K.root_fn(d) for d, bd in prog.bodies.items() if not bd.generated for c in bd.calls()
-                         if c.callee.endswith("Blockstore::create_double_merkle_proof") or c.callee.endswith("MerkleTree::create_proof")))
-    allowed = {RRH + "::try_build_response", "<" + A + "consensus::blockstore::BlockstoreImpl as " + A + "consensus::blockstore::Blockstore>::create_double_merkle_proof", A + "shredder::fill_missing_shreds"}
-    o.check(set(callers) <= allowed, "create_proof|callers", "the asserting MerkleTree::create_proof is reached only from the reviewed callers (responder after get_slice_root; shredder with 0..TOTAL_SHREDS)", "",
-            {"callers": [fshort(x) for x in callers], "unreviewed": [fshort(x) for x in callers if x not in allowed]})
+    _create_proof_guard(prog, o, tb)
     ab = [x for x in prog.family(RRH + "::answer_request")]
     nack = False
     for x in ab:
@@ -250,3 +222,47 @@ def check(run):
             cached = any(a[0] == "is_some" and a[2] is True for a in atoms)
             o.check(ver, key + ("|cached-commitment-path" if cached else "|uncached-path") + "|signature-verified",
                     "Ok only after the shred's own signature bytes verified", sp, {"guards": G.atoms_show(atoms)[:5]})
+
+
+def _create_proof_guard(prog, o, tb):
+    # the Merkle tree's create_proof asserts index < leaves: the slice index handed to create_double_merkle_proof must have been
+    # established as existing by a successful get_slice_root for the same (block, slice) before (backs the panic review entry)
+    for x in tb:
+        for c in x.calls():
+            if not c.callee.endswith("Blockstore::create_double_merkle_proof"):
+                continue
+            bid, idx = K.peel(x.operand_term(c.args[1])), K.peel(x.operand_term(c.args[2]))
+
+            def strip(t):
+                # drop the trailing block id of call terms so that terms are compared structurally
+                if isinstance(t, tuple) and t and t[0] == "call":
+                    return ("call", t[1], tuple(strip(a) for a in t[2]))
+                if isinstance(t, tuple):
+                    return tuple(strip(a) for a in t)
+                return t
+            ok = False
+            for a in G.guard_atoms(x, c.bb, prog):
+                ts = [t for t in mir.walk(a[1][0]) if isinstance(t, tuple) and t and t[0] == "call" and t[1].endswith("Blockstore::get_slice_root")]
+                positive = (a[0] == "is_some" and a[2] is True) or (a[0] == "variant" and a[1][1] == frozenset(["Continue"])) or (a[0] == "variant" and a[1][1] == frozenset(["Some"]))
+                for t in ts:
+                    if positive and strip(K.peel(t[2][1])) == strip(bid) and strip(K.peel(t[2][2])) == strip(idx):
+                        ok = True
+            o.check(ok, "try_build_response|create_double_merkle_proof|index-established", "create_double_merkle_proof(block, i) runs only after get_slice_root(block, i) answered for the same block and index "
+                    "(out-of-range index => Nack, not the assert in MerkleTree::create_proof)", c.span, {"guards": K.show_atoms(prog, x, c.bb)[-4:]})
+    callers = sorted(set(K.root_fn(d) for d, bd in prog.bodies.items() if not bd.generated for c in bd.calls()
+                         if c.callee.endswith("Blockstore::create_double_merkle_proof") or c.callee.endswith("MerkleTree::create_proof")))
+    allowed = {RRH + "::try_build_response", "<" + A + "consensus::blockstore::BlockstoreImpl as " + A + "consensus::blockstore::Blockstore>::create_double_merkle_proof", A + "shredder::fill_missing_shreds"}
+    o.check(set(callers) <= allowed, "create_proof|callers", "the asserting MerkleTree::create_proof is reached only from the reviewed callers (responder after get_slice_root; shredder with 0..TOTAL_SHREDS)", "",
+            {"callers": [fshort(x) for x in callers], "unreviewed": [fshort(x) for x in callers if x not in allowed]})
+
+
+def ob_create_proof_guard(run, oid):
+    """stand-alone form (used by C10): the asserting MerkleTree::create_proof is reached from the responder only with an index that
+    get_slice_root has answered for"""
+    prog = run.program("lib")
+    o = run.ob(oid, "the repair responder hands create_double_merkle_proof only slice indices that get_slice_root answered for (request index out of range => Nack, not a panic)",
+               "MerkleTree::create_proof asserts index < leaves: a request naming a slice beyond the block's last slice would kill the responder task", floor=3)
+    tb = [x for x in prog.family(RRH + "::try_build_response") if x.is_closure]
+    if not tb:
+        o.missing("RepairRequestHandler::try_build_response")
+    _create_proof_guard(prog, o, tb)
